@@ -18,7 +18,7 @@ RULE = ("class shapes = base class + registered subclass with members of every k
         "non-trivial = the name is a member of the shape or a variant of one")
 ASSUMPTIONS = ["classes with their own __getattr__/metaclass tricks are outside the quantifier", "'refused' = an exception reply of any type (no reply for oneway)",
                "a call-kind request naming an *exposed* property may run that property's getter before being refused"]
-REQUIRED_REACH = ["dynamic_exposure_stages_ok", "surplus_argument_requests", "served_ok", "refused_ok", "oneway_checked", "metadata_checked", "nonstring_names", "decoration_refusals", "reregistrations_on_live_connection"]
+REQUIRED_REACH = ["daemon_interface_ok", "dynamic_exposure_stages_ok", "surplus_argument_requests", "served_ok", "refused_ok", "oneway_checked", "metadata_checked", "nonstring_names", "decoration_refusals", "reregistrations_on_live_connection"]
 SHARD_TIMEOUT = {"quick": 240, "thorough": 2800}
 
 RESERVED = ["__init__", "__init_subclass__", "__class__", "__module__", "__weakref__", "__call__", "__new__", "__del__", "__repr__", "__str__",
@@ -632,6 +632,89 @@ def dynamic_exposure_phase(fx, sername, rec, r):
                 fx.daemon.unregister(oid)
 
 
+def daemon_interface_phase(P, servertype, sername, rec):
+    """the daemon's own object (id Pyro.Daemon) with an application-supplied interface class (Daemon(interface=...), a documented option):
+    the same gate applies to it - only the members that are exposed are served and advertised"""
+    LOGI = []
+
+    class Custom(P.server.DaemonObject):
+        def secret_op(self, *a, **k):
+            LOGI.append("secret_op")
+            return "secret"
+
+        @staticmethod
+        def secret_static(*a, **k):
+            LOGI.append("secret_static")
+            return "secret"
+
+        @property
+        def hidden(self):
+            LOGI.append("hidden.get")
+            return "SECRET-VALUE-OF-hidden"
+
+        @hidden.setter
+        def hidden(self, v):
+            LOGI.append("hidden.set")
+
+        @P.server.expose
+        def extra_ok(self, *a, **k):
+            LOGI.append("extra_ok")
+            return "fine"
+
+        @P.server.oneway
+        def unexposed_oneway(self, *a, **k):
+            LOGI.append("unexposed_oneway")
+    fx = fixture.Fixture(servertype=servertype, interface=Custom, COMMTIMEOUT=0.0)
+    ser = P.serializers.serializers[sername]
+    pay = {"daemon_interface": True, "serializer": sername, "servertype": servertype}
+    try:
+        c = wire.RawClient(fx.location)
+        m = c.handshake("Pyro.Daemon", ser)
+        meta = ser.loads(m.data)["meta"] if m.type == wire.CONNECTOK else {}
+        adv = set(meta.get("methods", ())) | set(meta.get("attrs", ()))
+        unexposed = ["secret_op", "secret_static", "hidden", "unexposed_oneway"]
+        rec.case(("daemon-interface", sername, servertype), nontrivial=True)
+        if adv & set(unexposed) or "extra_ok" not in adv:
+            rec.violation("metadata-differs-from-served:daemon-interface", "Pyro.Daemon with a custom interface class advertises %r; its exposed members are the stock ones plus 'extra_ok', not %r" % (sorted(adv), sorted(adv & set(unexposed))), pay)
+            return
+        for name in unexposed:
+            for kind in ("call", "batch", "oneway", "getattr", "setattr"):
+                del LOGI[:]
+                if kind == "call":
+                    rep = c.invoke("Pyro.Daemon", name, ("A1",), {}, ser)
+                elif kind == "batch":
+                    rep = c.invoke("Pyro.Daemon", "<batch>", [(name, ("A1",), {})], {}, ser, flags=wire.F_BATCH)
+                elif kind == "oneway":
+                    c.invoke("Pyro.Daemon", name, ("A1",), {}, ser, flags=wire.F_ONEWAY)
+                    c.ping(seq=9)
+                    wait_oneway_threads()
+                    rep = None
+                elif kind == "getattr":
+                    rep = c.invoke("Pyro.Daemon", "__getattr__", (name,), {}, ser)
+                else:
+                    rep = c.invoke("Pyro.Daemon", "__setattr__", (name, "NEW"), {}, ser)
+                served = rep is not None and not (rep.flags & wire.F_EXC)
+                if served and kind == "batch":
+                    data = ser.loads(rep.data)
+                    served = not (isinstance(data, (list, tuple)) and len(data) == 1 and isinstance(data[0], P.core._ExceptionWrapper))
+                if served or LOGI:
+                    rec.violation("unexposed-member-served:daemon-interface" if served else "refused-request-ran-code", "%s request for the unexposed member %r of the daemon's own (custom) interface object: %s, log %r" % (
+                        kind, name, "SERVED" if served else "refused", LOGI), pay)
+                    return
+                rec.count("daemon_interface_refusals")
+        del LOGI[:]
+        rep = c.invoke("Pyro.Daemon", "extra_ok", (), {}, ser)
+        if (rep.flags & wire.F_EXC) or LOGI != ["extra_ok"]:
+            rec.violation("exposed-member-not-served", "the exposed member extra_ok of the custom daemon interface was not served (log %r)" % (LOGI,), pay)
+            return
+        rec.count("daemon_interface_ok")
+        c.close()
+    except Exception as x:
+        rec.inconc("daemon interface phase failed in the harness: %r" % (x,))
+    finally:
+        fx.stop()
+
+
 def classify_effect(model, name, kind, log):
     m = model.eff.get(name) if isinstance(name, str) else None
     if m is not None and m["kind"] == "helper" and log == [(name + ".__call__", ("A1",))]:
@@ -704,10 +787,15 @@ def run_shard(shard, rec):
                     rec.violation("server-thread-fault", text, None)
     finally:
         fx.stop()
+    if shard["i"] < 4:
+        daemon_interface_phase(P, shard["servertype"], fixture.SERIALIZERS[shard["i"] % 4], rec)
 
 
 def replay(payload, rec):
     P = fixture.pyro()
+    if payload.get("daemon_interface"):
+        daemon_interface_phase(P, payload["servertype"], payload["serializer"], rec)
+        return
     if payload.get("dynamic"):
         fx = fixture.Fixture(servertype=payload.get("servertype", "thread"), COMMTIMEOUT=0.0)
         try:
